@@ -33,7 +33,16 @@ Progs3 == {Cat(Junk[j], Cat(Pool[a], Cat(Pool[b], Cat(Pool[c], W("rot"))))) :
 Progs4 == {Cat(Pool[a], Cat(W("elem"), Cat(W(Unary[w]), W("pos")))) : a \in 1..Len(Pool), w \in 1..Len(Unary)}
           \cup {Cat(Pool[a], Cat(W("relem"), W("pos"))) : a \in 1..Len(Pool)}
 
-All == SetToSeq(Progs1 \cup Progs2 \cup Progs3 \cup Progs4)
+\* operands that exist in several live copies (bound names, dup): the word must not change the other copies.
+\* (One set per shape: TLC cannot compare a word record with a string record, both have the fields k and w.)
+Progs5a == {Cat(Pool[a], Cat(Pool[b], Scope(<<"A", "B">>, Cat(Name("A"), Cat(Name("B"), Cat(W(Binary[w]), Cat(Name("A"), Name("B")))))))) :
+              a \in 1..Len(Pool), b \in 1..Len(Pool), w \in 1..Len(Binary)}
+Progs5b == {Cat(Pool[a], Scope(<<"A">>, Cat(Name("A"), Cat(Name("A"), Cat(W(Binary[w]), Name("A")))))) :
+              a \in 1..Len(Pool), w \in 1..Len(Binary)}
+Progs5c == {Cat(Pool[a], Cat(W("dup"), Cat(Pool[b], W(Binary[w])))) : a \in 1..Len(Pool), b \in 1..Len(Pool), w \in 1..Len(Binary)}
+Progs5d == {Cat(Pool[a], Cat(W("dup"), Cat(W(Unary[w]), W("swap")))) : a \in 1..Len(Pool), w \in 1..Len(Unary)}
+
+All == SetToSeq(Progs1 \cup Progs2 \cup Progs3 \cup Progs4) \o SetToSeq(Progs5a) \o SetToSeq(Progs5b) \o SetToSeq(Progs5c) \o SetToSeq(Progs5d)
 Mine == SelectSeq([j \in 1..Len(All) |-> [j |-> j, p |-> All[j]]], LAMBDA r: r.j % NShards = Shard)
 Vec(p) == LET r == Run(p) IN
           IF r.hard THEN <<>> ELSE <<[ast |-> p, den |-> r.out, lo |-> r.lo, hi |-> r.hi, ordered |-> TRUE, kind |-> "word"]>>
